@@ -10,6 +10,7 @@ import Driver.Server
 import Driver.Rpc
 import Driver.RpcQ
 import Driver.Embargo
+import Driver.ImportGen
 import Driver.Gen15
 import Driver.Pogs19
 /-! `modeld`: one operation per line on stdin, one canonical result per line on stdout. -/
@@ -28,6 +29,7 @@ def dispatch (line : String) : String :=
   | "rpc" :: rest => Driver.Rpc.run rest
   | "rpcq" :: rest => Driver.RpcQ.run rest
   | "embargo" :: rest => Driver.Embargo.run rest
+  | "rpcgen" :: rest => Driver.ImportGen.run rest
   | "gen15" :: rest => Driver.Gen15.run rest
   | "pogs19" :: rest => Driver.Pogs19.run rest
   | "build" :: rest => Driver.Read.runBuild rest
